@@ -74,11 +74,13 @@ func VerifLemma_C03C_FieldJSONName() {
 
 // VerifLemma_C03C_FieldOneof: FIELD_SAME_ONEOF reports (once, at the current field) exactly when the real-oneof
 // membership changes: into / out of a oneof, or between differently named oneofs. Synthetic (proto3 optional)
-// oneofs count as "no oneof".
+// oneofs count as "no oneof". Each side: not in a oneof / in a synthetic oneof / in a real oneof, combined with an
+// independent Proto3Optional flag (a real proto3 `optional` field has the flag and a synthetic oneof; the flag must
+// not silence a move between a real oneof and an optional field in either direction).
 func VerifLemma_C03C_FieldOneof() {
 	nl := verifParam("NL")
 	mk := func() (*vField, bool, string) {
-		f := &vField{number: 1, name: "f"}
+		f := &vField{number: 1, name: "f", proto3Optional: verifNondetBool()}
 		switch verifNondetChoice(3) {
 		case 0:
 			return f, false, ""
@@ -102,6 +104,9 @@ func VerifLemma_C03C_FieldOneof() {
 	}
 	if changed {
 		verifCover("oneof membership changed")
+		if prev.proto3Optional || cur.proto3Optional {
+			verifCover("move between a real oneof and a proto3 optional field")
+		}
 		verifAssert(rw.n == 1 && rw.vbHas("field", cur), "FIELD_SAME_ONEOF reports the move at the field")
 	} else {
 		verifAssert(rw.n == 0, "FIELD_SAME_ONEOF silent when membership is unchanged")
